@@ -2,11 +2,34 @@ package world
 
 // Ext holds the non-B32 population: cursors, 64-bit bitmaps, BSIs.
 type Ext struct {
-	w *World
+	w   *World
+	Cur [numCursors]*Cursor
 }
 
 func newExt(w *World) *Ext { return &Ext{w: w} }
 
-func (x *Ext) dropCursorsOf(slot int) {}
+// dropCursorsOf invalidates the cursors pinned to a slot (documented: an
+// iterator is invalid once its bitmap is modified).
+func (x *Ext) dropCursorsOf(slot int) {
+	for i, c := range x.Cur {
+		if c != nil && c.Slot == slot {
+			x.Cur[i] = nil
+		}
+	}
+}
+
+// dropRegion invalidates whatever depends on a region that goes away.
+func (x *Ext) dropRegion(ri int) {
+	for i, c := range x.Cur {
+		if c == nil {
+			continue
+		}
+		for _, r := range x.w.B[c.Slot].Regions {
+			if r == ri {
+				x.Cur[i] = nil
+			}
+		}
+	}
+}
 
 func (x *Ext) afterStep(tag string) {}
